@@ -1152,7 +1152,13 @@ fn run_pazip(ctx: &mut Ctx, preset: u8, builder: u8, corpus: &Corpus, inputs: &[
         if ctx.saturated() {
             break;
         }
-        let x = pieces_bytes(pieces, &cb, &dict_text, cap);
+        let mut x = pieces_bytes(pieces, &cb, &dict_text, cap);
+        if PAZIP_PRESETS[preset] == "reference_compliant" && x.len() > 40_000 {
+            // the reference encoder is super-linear (13 s for 256 KiB of periodic text, minutes for
+            // 1 MiB): slow, not wrong -- the 1 MiB class is for the block-wise path of the others
+            x.truncate(40_000);
+            ctx.label("reference_compliant_input_capped_40000");
+        }
         ctx.label(len_class(x.len()));
         let mut z = Vec::new();
         let stats = match try_call(|| c.compress(&x, &mut z)) {
